@@ -567,9 +567,35 @@ func (g *G) RecoveryCase(mode string) WalkCase {
 	return c
 }
 
+// TimeoutThenGuardCase is a scenario template: an action spins until the deadline, the spec routes
+// action errors through the node's branches, and the branch that handles the error has a guard
+// that does not terminate either.  The guard starts under a context that is already over, so it
+// is stopped at once and the step reports the timeout; nothing here depends on timing.
+func (g *G) TimeoutThenGuardCase(mode string) WalkCase {
+	spin := func() *Prog { return &Prog{Lang: "es", Ret: "bs", Ops: [][]interface{}{{"loop"}}} }
+	act := spin()
+	if g.P(1, 2) {
+		act.Ops = append([][]interface{}{{"set", "count", 1.0}}, act.Ops...)
+	}
+	s := &SpecD{Name: "timeoutThenGuard", ActionErrorBranches: true, Nodes: map[string]*NodeD{
+		"start": {Action: act, Branching: &BranchingD{Type: "bindings", Branches: []BranchD{
+			{Pattern: map[string]interface{}{"actionError": "?err"}, Guard: spin(), Target: "a"},
+			{Target: "b"}}}},
+		"a": {}, "b": {},
+	}}
+	if g.P(1, 3) {
+		s.ActionErrorNode = "b"
+	}
+	l := 3 + g.Intn(5)
+	return WalkCase{Spec: s, Profile: mode, St: StateD{Node: "start", Bs: g.Bindings(mode)}, Msgs: []interface{}{}, Limit: &l}
+}
+
 func (g *G) WalkCase(mode string) WalkCase {
 	if mode == "persist" && g.P(1, 3) || mode != "timeouts" && g.P(1, 10) {
 		return g.RecoveryCase(mode)
+	}
+	if mode == "timeouts" && g.P(1, 6) {
+		return g.TimeoutThenGuardCase(mode)
 	}
 	c := WalkCase{Spec: g.Spec(mode), Profile: mode}
 	names := []string{}
